@@ -1002,7 +1002,8 @@ fn oracle_script(names: &Names, script: usize, probes: Vec<String>, ops: &[Op], 
             match ok_m(&r) {
                 None => {
                     fd.count("duplicates_err");
-                    fd.fail(script, opi, "DUP-ERR", format!("op=[{}] result=[{}] files={:?}", op.line(), r, files.iter().map(|f| f.1).collect::<Vec<_>>()));
+                    let cl = dup_classes(&orig);
+                    fd.fail(script, opi, "DUP-ERR", format!("classes={} op=[{}] result=[{}] files={:?}", if cl.is_empty() { "-".to_string() } else { cl.join(",") }, op.line(), r, files.iter().map(|f| f.1).collect::<Vec<_>>()));
                     if before != after {
                         fd.fail(script, opi, "FAILED-DUP-EFFECT", format!("op=[{}]", op.line()));
                     }
